@@ -12,13 +12,14 @@ for n in "$@"; do
   else echo "$n: CONFLICT"; git diff --name-only --diff-filter=U; cd /; git -C /repo worktree remove --force $wt; continue; fi
   git diff HEAD -- pkg cmd > /tmp/rebased-$n.diff
   cp /verif/seeded/$n/demo_test.go pkg/ggql/zz_seed_demo_test.go
-  go build ./... 2>&1 | head -3
+  berr=$(go build ./... 2>&1 | head -3); [ -n "$berr" ] && echo "   BUILD: $berr"
   p=$(go test -vet=off -count=1 -run TestSeedDemo ./pkg/ggql 2>&1 | tail -1)
   rm pkg/ggql/zz_seed_demo_test.go
   s=$(BASELINE_PKGS="./cmd/... ./pkg/..." /verif/tools/baseline.sh $wt | tail -1)
   git checkout -q -- . ; cp /verif/seeded/$n/demo_test.go pkg/ggql/zz_seed_demo_test.go
   q=$(go test -vet=off -count=1 -run TestSeedDemo ./pkg/ggql 2>&1 | tail -1)
   echo "   patched: $p | pristine: $q | suite: $s"
-  case "$p" in FAIL*) case "$q" in ok*) cp /tmp/rebased-$n.diff /verif/seeded/$n/patch.diff; echo "   stored";; esac;; esac
+  # stored only when it builds, the demonstration fails patched / passes pristine, and the pinned suite passes with it
+  if [ -z "$berr" ]; then case "$s" in *NOT*) echo "   NOT stored (suite)";; *) case "$p" in FAIL*) case "$q" in ok*) cp /tmp/rebased-$n.diff /verif/seeded/$n/patch.diff; echo "   stored";; esac;; esac;; esac; else echo "   NOT stored (build)"; fi
   cd /; git -C /repo worktree remove --force $wt
 done
